@@ -202,7 +202,7 @@ def adjacent_ranges(rng):
     k = rng.choice("ihc")
     suf = "h" if k == "h" else ""
     def lit(v):
-        return "'%c'" % v if k == "c" else "%d%s" % (v, suf)
+        return _lit(k, v)
     base = rng.randint(60, 90) if k == "c" else rng.randint(-20, 20)
     n1 = rng.randint(2, 6)
     d1 = rng.choice([1, -1]) if rng.random() < 0.7 else rng.choice([2, 3, -2])
